@@ -237,9 +237,11 @@ def main(tier, t0):
         'find_pippinger_window(min(#points,#scalars)); every component loop of the bucket and table-driven variants is bounded by the minimum length; bucket '
         'accumulations only under bucket_index > 0; the table-driven variant is proved equal to sum_j [k_j]P_j for list lengths (0,0),(1,1),(2,2),(3,3),(2,3),(3,1) and '
         'ALL scalar values by bit-provenance + linear-form abstract interpretation, given the table contract, and precomp_256 establishes that contract from any buffer. '
-        'NOT decided: the bucket method\'s digit extraction, running-sum reduction and inter-window doublings (data-dependent indices and loop bounds).',
+        'Bucket method: digit extraction + inter-window doublings decided for every window size 1..=20 and all scalar bits (skeleton interpretation with the reduction '
+        'summarised); the per-window running-sum reduction decided for max_bucket <= 5 and all bucket contents on every path. Composition gives sum_i [k_i]P_i; the '
+        'uniform loops over buckets / components are not closed by induction (bounded instances only).',
         ['rustc MIR', 'group-operation contracts (C01)'],
-        ['narrow claim; bucket arithmetic is out of reach of this family'])
+        ['bounded in max_bucket (<=5) and component count (<=2) for the bucket method, list length (<=3) for the table-driven variant; exhaustive in scalars, points and window sizes'])
 
 
 # ---------------------------------------------------------------- bucket reduction (running sums)
